@@ -116,7 +116,7 @@ class _Contain(Flow):
 
 def _rule1(ctx, rep):
     prog = ctx.prog
-    f = prog.func('dawgie.fe._static')
+    f = prog.nfunc('dawgie.fe._static')
     rep.analysed(f)
     with rep.rule(
         'R-C19-1',
@@ -240,7 +240,7 @@ def allow_list(prog, f):
 
 def _rule2(ctx, rep):
     prog = ctx.prog
-    f = prog.func('dawgie.security.is_sanctioned')
+    f = prog.nfunc('dawgie.security.is_sanctioned')
     rep.analysed(f)
     with rep.rule(
         'R-C19-2',
@@ -310,7 +310,7 @@ def _rule3(ctx, rep):
         breaks='an error inside the access hook, or a handler invoked before the check, lets an anonymous caller through',
     ) as r:
         # (a) security.sanctioned: every path through an except handler, and the fall-through, returns False
-        f = prog.func('dawgie.security.sanctioned')
+        f = prog.nfunc('dawgie.security.sanctioned')
         rep.analysed(f)
         fl = _FailClosed()
         out = fl.run(f.node, 'normal')
@@ -341,7 +341,7 @@ def _rule3(ctx, rep):
             f'(catch_all={catch_all}, hook_in_try={bool(in_try)}, tail_false={tail_ok}, bad_returns={[norm(b) for b in bad]})',
         )
         # (b) DynamicContent.__render: the handler call is dominated by the true branch of sanctioned(...)
-        g = prog.func('dawgie.fe.basis.DynamicContent._DynamicContent__render')
+        g = prog.nfunc('dawgie.fe.basis.DynamicContent._DynamicContent__render')
         rep.analysed(g)
 
         class Dom(Flow):
@@ -401,7 +401,7 @@ def _rule3(ctx, rep):
                 )
                 r.check(ok, f'{m.qname}:via-render', where(m), 'returns self.__render(...) and nothing else', f'{name} does not simply delegate to __render (the access check could be bypassed)')
         # (d) is_sanctioned: with certificates configured, anonymous + unlisted endpoint -> False
-        h = prog.func('dawgie.security.is_sanctioned')
+        h = prog.nfunc('dawgie.security.is_sanctioned')
 
         class IS(Flow):
             """state = (clients configured?, cert is None?, endpoint listed?) each in {True, False, '?'}"""
